@@ -132,25 +132,32 @@ Theorem matvec_spec : forall bs bidx data x,
 Proof. exact matvec_spec_l. Qed.
 Print Assumptions matvec_spec.
 
-(* ---- pattern of two spline spaces ----
-   NOT PROVED: sparsity_ij_spec --
-     forall supp1 supp2 (supports with fst < snd, starts and ends non-decreasing), a b,
-       In (a,b) (compute_sparsity_ij supp1 supp2) <->
-       exists s2 s1, nth_error supp2 a = Some s2 /\ nth_error supp1 b = Some s1 /\ overlap s2 s1
-   Missing: completeness (<-), i.e. that the searchsorted start skips only supports that end
-   before s2 starts and that the while loop stops only when all later supports start after s2
-   ends; both need the monotonicity of the support arrays.  Completeness is covered by the
-   tie (exact list comparison) and the overlap oracle on every run. *)
-Theorem sparsity_ij_spec_partial : forall supp1 supp2 a b,
-  In (a, b) (compute_sparsity_ij supp1 supp2) ->
-  exists s2 s1, 0 <= a /\ 0 <= b /\
-    nth_error supp2 (Z.to_nat a) = Some s2 /\ nth_error supp1 (Z.to_nat b) = Some s1 /\ overlap s2 s1.
-Proof. exact sparsity_sound_l. Qed.
-Print Assumptions sparsity_ij_spec_partial.
+(* ---- pattern of two spline spaces: for support arrays with non-decreasing starts and ends
+   (the supports of the B-splines of a knot vector, as intervals of knot values) the result is
+   exactly the set of pairs (i, j) whose supports overlap in positive length ---- *)
+Theorem sparsity_ij_spec : forall supp1 supp2,
+  Sorted.StronglySorted Z.le (map fst supp1) -> Sorted.StronglySorted Z.le (map snd supp1) ->
+  Forall nonempty_supp supp1 -> Forall nonempty_supp supp2 ->
+  forall a b, In (a, b) (compute_sparsity_ij supp1 supp2) <->
+    (0 <= a /\ 0 <= b /\ exists s2 s1,
+      nth_error supp2 (Z.to_nat a) = Some s2 /\ nth_error supp1 (Z.to_nat b) = Some s1 /\ overlap s2 s1).
+Proof. exact sparsity_spec_l. Qed.
+Print Assumptions sparsity_ij_spec.
+
+(* ---- conversion to a sparse matrix: entry (r,c) of asmatrix() is the sum of the data entries
+   whose position in the compact layout is (r,c) ---- *)
+Theorem asmatrix_spec : forall bs bidx data r c, length bs = length bidx ->
+  dense_entry (asmatrix bs bidx data) r c = dense_entry (combine (kron_pattern bs bidx) data) r c.
+Proof. exact asmatrix_spec_l. Qed.
+Print Assumptions asmatrix_spec.
 
 (* NOT PROVED (no theorem; exercised by the exact tie and the dense oracle on every run):
-   asmatrix_spec      -- dense_entry (asmatrix bs bidx data) = dense_entry (triples bs bidx data)
-                         (the canonical sorted form sums duplicates and drops zeros);
-   reorder_spec       -- entries of reorder_asmatrix at permuted digits equal the original entries;
+   reorder_spec       -- entries of reorder_asmatrix at permuted digits equal the original entries
+                         (needs: product over a permuted list of levels = permuted selections);
    transpose_idx_involution -- transpose_idx b = Some t -> nth (nth k t) t = k on duplicate-free b;
-   kron_partial_spec  -- kron_partial As rows restrict = selected rows of the dense product. *)
+   kron_partial_spec  -- kron_partial As rows restrict = selected rows of the dense product
+                         (rows_spec gives the positions; the values prod_k A_k[I_k,J_k] are not
+                         related to a dense Kronecker product in Coq);
+   sparsity_ij for knot vectors -- that `supports kv p` of a non-decreasing knot vector without
+                         knots of multiplicity > p+1 satisfies the hypotheses of sparsity_ij_spec
+                         (shown for a concrete pair in Examples.v only). *)
